@@ -19,6 +19,7 @@ import LinVerif.Lemmas.C16Valid
 import LinVerif.Lemmas.C16Route
 import LinVerif.Lemmas.C16Escape
 import LinVerif.Lemmas.C16Influx
+import LinVerif.Lemmas.C16FlatAgree
 import LinVerif.Generated.C16
 
 namespace LinVerif.Props.C16
@@ -542,7 +543,8 @@ theorem limitEnableRules_expected : Generated.C16.limitEnableRules = [
   ("EnableFieldsCheck", "return l.MaxFieldsPerMetric > 0"),
   ("EnableTagNameLengthCheck", "return l.MaxTagNameLength > 0"),
   ("EnableTagValueLengthCheck", "return l.MaxTagValueLength > 0"),
-  ("EnableTagsCheck", "return l.MaxTagsPerMetric > 0")] := rfl
+  ("EnableTagsCheck", "return l.MaxTagsPerMetric > 0"),
+  ("EnableNamespaceLengthCheck", "return l.MaxNamespaceLength > 0")] := rfl
 
 /-- deDupTags: sort, then the keep-last 2-pointer loop (`dedupRuns`) -/
 theorem deDupTags_expected : Generated.C16.deDupTagsSrc =
@@ -816,6 +818,191 @@ negations below are about the value `false` of each. -/
 theorem less_variant_known : Generated.C16.lessTieBreakOnValue = true ∨ Generated.C16.lessTieBreakOnValue = false := by
   cases Generated.C16.lessTieBreakOnValue <;> simp
 
+/-! ## the family iterator: fast path ≡ slow path -/
+
+/-- **family_fast_path_equiv_slow_path**: `BrokerBatchShardFamilyIterator.reset` takes a fast path when
+`isSameFamily` says every row lies in the first row's family, and otherwise sorts by timestamp and scans.
+For EVERY shard group (any rows, any order), every conforming sort and calculator, the groups the iterator
+hands out are the groups the slow path alone (`familyGroupsSlow`: always sort, always scan) would hand out:
+the same family times in the same order, the same rows in each group up to order. So the fast path is an
+optimisation only — it can neither merge two families nor route a row to another family. -/
+theorem family_fast_path_equiv_slow_path (C : Calc) (hC : CalcSpec C) {sortTs : List BRow → List BRow}
+    (hst : SortSpec lessTs sortTs) (l : List BRow) :
+    List.Forall₂ (fun g g' => g.1 = g'.1 ∧ g.2.Perm g'.2)
+      (familyGroups C sortTs l) (familyGroupsSlow C sortTs l) :=
+  familyGroups_fast_slow C hC hst l
+
+/-! ## the flat path: pooled decoder + RowBuilder refine a function of the row; agreement with protobuf -/
+
+open LinVerif.FlatRow in
+/-- **flat_decode_refines_spec** (refinement, for EVERY state of the pooled decoder and of its RowBuilder —
+slots beyond the counters, histogram scratch slices, name / namespace / timestamp / mmsc left by any
+earlier row, accepted or rejected at any point of `rebuild`): what `DecodeTo` hands to `FromBlock`, or the
+error `TryAppend` sees, is `flatSpec` of the row — the rules of `rebuild` and `Build` in source order, and
+the stored row. For every sort, every hash, every limit set. -/
+theorem flat_decode_refines_spec (fc : FCfg) (sortK : List Tag → List Tag) (H : String → Nat) (d : Dec) (r : FRow) :
+    (decodeTo fc sortK H d r).2 = flatSpec fc sortK H r :=
+  decodeTo_result fc sortK H d r
+
+open LinVerif.FlatRow in
+/-- **flat_stream_no_state_leak** (histories): a request of any length through ONE decoder, whatever the
+pool handed out (`d`, `d'` arbitrary), gives row by row what a brand-new decoder gives for that row alone.
+No state leaks between rows of a request nor between requests. -/
+theorem flat_stream_no_state_leak (fc : FCfg) (sortK : List Tag → List Tag) (H : String → Nat)
+    (d d' : Dec) (rows : List FRow) :
+    (decodeStream fc sortK H d rows).2 = (decodeStream fc sortK H d' rows).2 ∧
+    (decodeStream fc sortK H d rows).2 = rows.map (fun r => (decodeTo fc sortK H Dec.fresh r).2) := by
+  refine ⟨by rw [decodeStream_result, decodeStream_result], ?_⟩
+  rw [decodeStream_result]
+  apply List.map_congr_left
+  intro r _
+  exact (decodeTo_result fc sortK H Dec.fresh r).symm
+
+open LinVerif.FlatRow in
+/-- **flat_row_independent_of_stream**: the verdict and the stored form of a row do not depend on the rows
+before or after it in the stream (the flat counterpart of `row_independent_of_batch`; a rejected row changes
+nothing for the others — "rejected as a whole") -/
+theorem flat_row_independent_of_stream (fc : FCfg) (sortK : List Tag → List Tag) (H : String → Nat)
+    (d : Dec) (pre post : List FRow) (r : FRow) :
+    (decodeStream fc sortK H d (pre ++ r :: post)).2 =
+      (decodeStream fc sortK H d pre).2 ++ (decodeTo fc sortK H Dec.fresh r).2 ::
+        (decodeStream fc sortK H Dec.fresh post).2 := by
+  simp only [decodeStream_result, decodeTo_result, List.map_append, List.map_cons]
+
+open LinVerif.FlatRow in
+/-- **flat_accepted_iff_valid**: a flat row is stored iff no rule of `ValidFlat` fails — the exact
+characterisation of rejection on the flat path, for every decoder state -/
+theorem flat_accepted_iff_valid (fc : FCfg) (sortK : List Tag → List Tag) (H : String → Nat) (d : Dec) (r : FRow) :
+    (∃ s, (decodeTo fc sortK H d r).2 = .ok s) ↔ ValidFlat fc r := by
+  rw [decodeTo_result]
+  constructor
+  · rintro ⟨s, h⟩
+    exact (valid_of_flatSpec fc sortK H r s h).1
+  · intro h
+    exact ⟨_, flatSpec_of_valid fc sortK H r h⟩
+
+open LinVerif.FlatRow in
+/-- **flat_canonical**: an accepted flat row is stored with strictly increasing tag keys, only pairs that
+were sent (row or enriched), every sent key; name / namespace sanitized (the row's namespace, the request's
+when the row has none), timestamp (0 ↦ now), fields in order with values and raw types untouched, reserved
+names escaped; tags hash = hash of the stored tags; name hash = hash of namespace ++ name. For every
+conforming sort (keys-only order), every hash. -/
+theorem flat_canonical (fc : FCfg) {sortK : List Tag → List Tag} (hK : SortSpec (less false) sortK)
+    (H : String → Nat) (d : Dec) (r : FRow) (s : Stored) (h : (decodeTo fc sortK H d r).2 = .ok s) :
+    s.tags.Pairwise (fun a b => a.key < b.key) ∧
+    (∀ t ∈ s.tags, t ∈ r.tags ∨ t ∈ fc.c.enriched) ∧
+    (∀ t, (t ∈ r.tags ∨ t ∈ fc.c.enriched) → ∃ t' ∈ s.tags, t'.key = t.key) ∧
+    s.name = sanitizeName r.name ∧ s.ns = sanitizeName (nsOf fc r) ∧
+    s.ts = (if r.ts = 0 then fc.c.now else r.ts) ∧
+    s.fields = r.fields.map (fun f => { f with name := sanitizeFieldName f.name }) ∧
+    s.compound = compoundOf r.compound ∧
+    s.hash = H (concatKVs s.tags) ∧ s.nameHash = H (s.ns ++ s.name) := by
+  rw [decodeTo_result] at h
+  obtain ⟨_, rfl⟩ := valid_of_flatSpec fc sortK H r s h
+  obtain ⟨p1, p2, p3⟩ := flatDedup_props hK (r.tags ++ fc.c.enriched)
+  refine ⟨p1, fun t ht => List.mem_append.1 (p2 t ht), fun t ht => p3 t (List.mem_append.2 ht),
+    rfl, rfl, rfl, rfl, rfl, rfl, rfl⟩
+
+open LinVerif.FlatRow in
+/-- **flat_proto_agree** ("a row is stored iff valid, identically across formats"): for a metric without nil
+entries, sent as protobuf and as a raw flat row, under the hypotheses `Agree` (each one names a recorded
+difference between the two validators — see its docstring), for every pair of conforming sorts (protobuf:
+key-then-value order, RowBuilder: keys only), every hash and every state of the pooled decoder: both paths
+reject, or both accept and store THE SAME row (name, namespace, timestamp, tags, fields, histogram, tags
+hash, name hash). Partial in one respect: the equivalence of the two histogram rule sets is a hypothesis
+(`Agree.compound_agree`), refuted outside it by `Neg.two_bucket_histogram_formats_disagree` and
+`Neg.nan_bucket_value_formats_disagree`. -/
+theorem flat_proto_agree (c : Cfg) (maxNs : Nat) {sortP sortK : List Tag → List Tag}
+    (hP : SortSpec (less true) sortP) (hK : SortSpec (less false) sortK) (H : String → Nat)
+    (m : PMetric) (ts : List Tag) (fs : List SField) (ha : Agree c maxNs m ts fs) (d : Dec) :
+    (convert true sortP H c (some m)).toOption =
+      (decodeTo ⟨c, maxNs⟩ sortK H d (flatOf m ts fs)).2.toOption := by
+  rw [decodeTo_result]
+  by_cases hv : Valid c m
+  · rw [flatSpec_of_valid _ sortK H _ ((valid_iff_validFlat ha).1 hv)]
+    simp only [convert, validate_of_valid c m hv, build_eq_flatStored ha hv hP hK H]
+    rfl
+  · have h1 : ∃ e, convert true sortP H c (some m) = .error e := by
+      unfold convert
+      cases hv' : validate c (some m) with
+      | error e => exact ⟨e, rfl⟩
+      | ok v => exact absurd (valid_of_validate c m v hv').1 hv
+    obtain ⟨e, he⟩ := h1
+    rw [he]
+    cases hf : flatSpec ⟨c, maxNs⟩ sortK H (flatOf m ts fs) with
+    | error e' => rfl
+    | ok s =>
+      exact absurd ((valid_iff_validFlat ha).2 (valid_of_flatSpec _ sortK H _ s hf).1) hv
+
+/-! ## ties of the flat-path model (row_flat_decoder.go, row_readonly.go, lindb/common RowBuilder) -/
+
+/-- `FlatRow.rebuildA` / `rebuildB`: every limit check, loop and builder call of BrokerRowFlatDecoder.rebuild, in order -/
+theorem flatRebuildSrc_expected : Generated.C16.flatRebuildSrc =
+  "if itr.limits.EnableTagsCheck() && itr.originRow.TagsLen()+len(itr.enrichedTags) > itr.limits.MaxTagsPerMetric { return constants.ErrTooManyTagKeys } ; kvItr := itr.originRow.NewKeyValueIterator() ; for kvItr.HasNext() { tagKey := kvItr.NextKey() if itr.limits.EnableTagNameLengthCheck() && len(tagKey) > itr.limits.MaxTagNameLength { return constants.ErrTagKeyTooLong } tagValue := kvItr.NextValue() if itr.limits.EnableTagValueLengthCheck() && len(tagValue) > itr.limits.MaxTagValueLength { return constants.ErrTagValueTooLong } if err := itr.rowBuilder.AddTag(tagKey, tagValue); err != nil { return err } } ; if len(itr.enrichedTags) > 0 { for i := 0; i < len(itr.enrichedTags); i++ { if err := itr.rowBuilder.AddTag(itr.enrichedTags[i].Key, itr.enrichedTags[i].Value); err != nil { return err } } } ; if itr.limits.EnableFieldsCheck() && itr.originRow.SimpleFieldsLen() > itr.limits.MaxFieldsPerMetric { return constants.ErrTooManyFields } ; simpleFieldItr := itr.originRow.NewSimpleFieldIterator() ; for simpleFieldItr.HasNext() { fieldName := simpleFieldItr.NextRawName() if itr.limits.EnableFieldNameLengthCheck() && len(fieldName) > itr.limits.MaxFieldNameLength { return constants.ErrFieldNameTooLong } if err := itr.rowBuilder.AddSimpleField( simpleFieldItr.NextRawName(), simpleFieldItr.NextRawType(), simpleFieldItr.NextValue(), ); err != nil { return err } } ; compoundFieldItr, ok := itr.originRow.NewCompoundFieldIterator() ; if !ok { goto End } ; for compoundFieldItr.HasNextBucket() { itr.compoundBounds = append(itr.compoundBounds, compoundFieldItr.NextExplicitBound()) itr.compoundValues = append(itr.compoundValues, compoundFieldItr.NextValue()) } ; if err := itr.rowBuilder.AddCompoundFieldData(itr.compoundValues, itr.compoundBounds); err != nil { return err } ; if err := itr.rowBuilder.AddCompoundFieldMMSC( compoundFieldItr.Min(), compoundFieldItr.Max(), compoundFieldItr.Sum(), compoundFieldItr.Count(), ); err != nil { return err } ; End: metricName := itr.originRow.Name() ; if itr.limits.EnableMetricNameLengthCheck() && len(metricName) > itr.limits.MaxMetricNameLength { return constants.ErrMetricNameTooLong } ; itr.rowBuilder.AddMetricName(metricName) ; itr.rowBuilder.AddTimestamp(itr.originRow.Timestamp()) ; ns := itr.originRow.m.Namespace() ; if len(ns) == 0 { ns = itr.namespace } ; if itr.limits.EnableNamespaceLengthCheck() && len(ns) > itr.limits.MaxNamespaceLength { return constants.ErrNamespaceTooLong } ; itr.rowBuilder.AddNameSpace(ns) ; return nil" := rfl
+
+/-- `FlatRow.decodeTo`: reset first, rebuild, Build, FromBlock -/
+theorem flatDecodeToSrc_expected : Generated.C16.flatDecodeToSrc =
+  "itr.resetForNextDecode() ; if itr.size <= 0 || itr.size > maxRowLength { return fmt.Errorf(\"invalid flat row length: %d\", itr.size) } ; if itr.size > cap(itr.buf) { itr.buf = make([]byte, itr.size) } ; itr.buf = itr.buf[0:itr.size] ; n, err := io.ReadFull(itr.reader, itr.buf) ; if n != itr.size || err != nil { return fmt.Errorf(\"expect length: %d, read length: %d\", itr.size, n) } ; itr.readLen += n ; itr.originRow.m.Init(itr.buf, flatbuffers.GetUOffsetT(itr.buf)) ; if err0 := itr.rebuild(); err0 != nil { return err0 } ; data, err := itr.rowBuilder.Build() ; if err != nil { return err } ; row.FromBlock(data) ; return nil" := rfl
+
+/-- `FlatRow.bucketsOf`: the bucket count is min(len bounds, len values) -/
+theorem newCompoundFieldIteratorSrc_expected : Generated.C16.newCompoundFieldIteratorSrc =
+  "mr.compoundFieldIterator.idx = -1 ; mr.compoundFieldIterator.m = &mr.m ; if obj := mr.m.CompoundField(&mr.compoundFieldIterator.f); obj == nil { return nil, false } ; mr.compoundFieldIterator.num = mr.compoundFieldIterator.f.ExplicitBoundsLength() ; if mr.compoundFieldIterator.f.ValuesLength() < mr.compoundFieldIterator.num { mr.compoundFieldIterator.num = mr.compoundFieldIterator.f.ValuesLength() } ; return &mr.compoundFieldIterator, true" := rfl
+
+/-- the RowBuilder modelled in `Model/FlatRow.lean` is the one of this pinned version of github.com/lindb/common -/
+theorem lindbCommonVersion_expected : Generated.C16.lindbCommonVersion =
+  "v0.0.6" := rfl
+
+/-- `RB.reset`: counters zeroed, slices truncated, mmsc zeroed — slots beyond the counters keep their contents -/
+theorem rowBuilderResetSrc_expected : Generated.C16.rowBuilderResetSrc =
+  "rb.flatBuilder.Reset() ; rb.metricName = rb.metricName[:0] ; rb.nameSpace = rb.nameSpace[:0] ; rb.timestamp = 0 ; rb.rowKVs.kvCount = 0 ; rb.simpleFieldCount = 0 ; rb.exemplarFieldCount = 0 ; rb.compoundFieldValues = rb.compoundFieldValues[:0] ; rb.compoundFieldExplicitValues = rb.compoundFieldExplicitValues[:0] ; rb.compoundFieldMin = 0 ; rb.compoundFieldMax = 0 ; rb.compoundFieldSum = 0 ; rb.compoundFieldCount = 0 ; rb.keys = rb.keys[:0] ; rb.values = rb.values[:0] ; rb.kvs = rb.kvs[:0] ; rb.fieldNames = rb.fieldNames[:0] ; rb.fields = rb.fields[:0] ; rb.exemplarNames = rb.exemplarNames[:0] ; rb.exemplarTraces = rb.exemplarTraces[:0] ; rb.exemplarSpans = rb.exemplarSpans[:0] ; rb.exemplars = rb.exemplars[:0]" := rfl
+
+/-- `RB.addTag` -/
+theorem rowBuilderAddTagSrc_expected : Generated.C16.rowBuilderAddTagSrc =
+  "if len(key) == 0 || len(value) == 0 { return fmt.Errorf(\"tag[%s: %s] is empty\", string(key), string(value)) } ; rb.rowKVs.kvCount++ ; if rb.rowKVs.kvCount > len(rb.rowKVs.kvs) { rb.rowKVs.kvs = append(rb.rowKVs.kvs, rowKV{}) } ; kvIdx := rb.rowKVs.kvCount - 1 ; rb.rowKVs.kvs[kvIdx].key = append(rb.rowKVs.kvs[kvIdx].key[:0], key...) ; rb.rowKVs.kvs[kvIdx].value = append(rb.rowKVs.kvs[kvIdx].value[:0], value...) ; return nil" := rfl
+
+/-- `simpleFieldErr` / `RB.addSimpleField`: type, Inf, NaN, empty name — in this order; reserved names escaped -/
+theorem rowBuilderAddSimpleFieldSrc_expected : Generated.C16.rowBuilderAddSimpleFieldSrc =
+  "if fieldType == flatMetricsV1.SimpleFieldTypeUnSpecified { return fmt.Errorf(\"flat field type is unspecified\") } ; if math.IsInf(fieldValue, 0) { return fmt.Errorf(\"fieldValue is Inf :%f\", fieldValue) } ; if math.IsNaN(fieldValue) { return fmt.Errorf(\"fieldValue is NaN :%f\", fieldValue) } ; if len(fieldName) == 0 { return fmt.Errorf(\"fieldName is empty\") } ; if ShouldSanitizeFieldName(fieldName) { fieldName = SanitizeFieldName(fieldName) } ; rb.simpleFieldCount++ ; if rb.simpleFieldCount > len(rb.simpleFields) { rb.simpleFields = append(rb.simpleFields, rowSimpleField{}) } ; sfIdx := rb.simpleFieldCount - 1 ; rb.simpleFields[sfIdx].name = append(rb.simpleFields[sfIdx].name[:0], fieldName...) ; rb.simpleFields[sfIdx].fType = fieldType ; rb.simpleFields[sfIdx].value = fieldValue ; return nil" := rfl
+
+/-- `bucketsErr` / `RB.addCompoundData` -/
+theorem rowBuilderAddCompoundFieldDataSrc_expected : Generated.C16.rowBuilderAddCompoundFieldDataSrc =
+  "if len(values) != len(bounds) { return fmt.Errorf(\"values's length: %d != explicit-bounds's length: %d\", len(values), len(bounds), ) } ; if len(values) < 2 { return fmt.Errorf(\"compound buckets: %d less than 2\", len(values)) } ; for idx := 1; idx < len(bounds); idx++ { if bounds[idx] < bounds[idx-1] { return fmt.Errorf(\"compound explicit bound is not increasing\") } } ; if !math.IsInf(bounds[len(bounds)-1], 1) { return fmt.Errorf(\"compound last explicit bound: %f is not +Inf\", bounds[len(bounds)-1]) } ; if bounds[0] < 0 { return fmt.Errorf(\"compound first explicit bound: %f < 0\", bounds[0]) } ; for _, v := range values { if math.IsInf(v, 0) { return fmt.Errorf(\"compound value contains Inf: %f\", v) } if v < 0 { return fmt.Errorf(\"compound value less than zero: %f\", v) } if math.IsNaN(v) { return fmt.Errorf(\"compound value contains NaN: %f\", v) } } ; rb.compoundFieldValues = append(rb.compoundFieldValues[:0], values...) ; rb.compoundFieldExplicitValues = append(rb.compoundFieldExplicitValues[:0], bounds...) ; return nil" := rfl
+
+/-- `RB.addMMSC`: assign, then check -/
+theorem rowBuilderAddCompoundFieldMMSCSrc_expected : Generated.C16.rowBuilderAddCompoundFieldMMSCSrc =
+  "rb.compoundFieldMin = min ; rb.compoundFieldMax = max ; rb.compoundFieldSum = sum ; rb.compoundFieldCount = count ; if !(min >= 0 && max >= 0 && sum >= 0 && count >= 0) { return fmt.Errorf(\"min: %f, max: %f, sum: %f, count: %f should >= 0\", min, max, sum, count) } ; return nil" := rfl
+
+/-- `RB.addMetricName` -/
+theorem rowBuilderAddMetricNameSrc_expected : Generated.C16.rowBuilderAddMetricNameSrc =
+  "if ShouldSanitizeNamespaceOrMetricName(metricName) { metricName = SanitizeNamespaceOrMetricName(metricName) } ; rb.metricName = append(rb.metricName[:0], metricName...)" := rfl
+
+/-- `RB.addNameSpace` -/
+theorem rowBuilderAddNameSpaceSrc_expected : Generated.C16.rowBuilderAddNameSpaceSrc =
+  "if ShouldSanitizeNamespaceOrMetricName(namespace) { namespace = SanitizeNamespaceOrMetricName(namespace) } ; rb.nameSpace = append(rb.nameSpace[:0], namespace...)" := rfl
+
+/-- `flatDedup`: sort only when not sorted, de-duplicate only when two neighbours share a key, keep the last of a run -/
+theorem rowBuilderDedupSrc_expected : Generated.C16.rowBuilderDedupSrc =
+  "if rb.rowKVs.kvCount < 2 { return rb._xxHashOfKVs() } ; if !sort.IsSorted(rb.rowKVs) { sort.Sort(rb.rowKVs) } ; shouldDeDup := false ; for cursor := 1; cursor < rb.rowKVs.kvCount; cursor++ { if bytes.Equal(rb.rowKVs.kvs[cursor].key, rb.rowKVs.kvs[cursor-1].key) { shouldDeDup = true break } } ; if !shouldDeDup { return rb._xxHashOfKVs() } ; slow := 0 ; for high := 1; high < rb.rowKVs.kvCount; high++ { if !bytes.Equal(rb.rowKVs.kvs[slow].key, rb.rowKVs.kvs[high].key) { slow++ } rb.rowKVs.kvs[slow].value = append(rb.rowKVs.kvs[slow].value[:0], rb.rowKVs.kvs[high].value...) rb.rowKVs.kvs[slow].key = append(rb.rowKVs.kvs[slow].key[:0], rb.rowKVs.kvs[high].key...) } ; rb.rowKVs.kvCount = slow + 1 ; return rb._xxHashOfKVs()" := rfl
+
+/-- the RowBuilder orders tags by KEY ONLY (`less false`) -/
+theorem rowKVsLessSrc_expected : Generated.C16.rowKVsLessSrc =
+  "return bytes.Compare(items.kvs[i].key, items.kvs[j].key) < 0" := rfl
+
+/-- the limit rules of `rebuild` (`errA` / `errB`), in source order -/
+theorem flatRebuildRules_expected : Generated.C16.flatRebuildRules = [
+  ("itr.limits.EnableTagsCheck() && itr.originRow.TagsLen()+len(itr.enrichedTags) > itr.limits.MaxTagsPerMetric", "constants.ErrTooManyTagKeys"),
+  ("itr.limits.EnableTagNameLengthCheck() && len(tagKey) > itr.limits.MaxTagNameLength", "constants.ErrTagKeyTooLong"),
+  ("itr.limits.EnableTagValueLengthCheck() && len(tagValue) > itr.limits.MaxTagValueLength", "constants.ErrTagValueTooLong"),
+  ("itr.limits.EnableFieldsCheck() && itr.originRow.SimpleFieldsLen() > itr.limits.MaxFieldsPerMetric", "constants.ErrTooManyFields"),
+  ("itr.limits.EnableFieldNameLengthCheck() && len(fieldName) > itr.limits.MaxFieldNameLength", "constants.ErrFieldNameTooLong"),
+  ("itr.limits.EnableMetricNameLengthCheck() && len(metricName) > itr.limits.MaxMetricNameLength", "constants.ErrMetricNameTooLong"),
+  ("itr.limits.EnableNamespaceLengthCheck() && len(ns) > itr.limits.MaxNamespaceLength", "constants.ErrNamespaceTooLong")] := rfl
+
+/-- the two rules of RowBuilder.Build (`RB.build`) -/
+theorem rowBuilderBuildRules_expected : Generated.C16.rowBuilderBuildRules = [
+  ("len(rb.metricName) == 0", "fmt.Errorf(\"metric-name is empty\")"),
+  ("rb.simpleFieldCount == 0 && len(rb.compoundFieldValues) == 0", "fmt.Errorf(\"simple field and compound field are both empty\")")] := rfl
+
 /-! ## non-vacuity -/
 
 def lim0 : Limits := ⟨256, 128, 128, 1024, 32, 256⟩
@@ -861,6 +1048,21 @@ example :
       (fun g => (g.shard, g.famTime, g.rows.map (fun r => r.id))) = [(1, 0, [1]), (1, 3600000, [0]), (2, 0, [2])] := by
   simp [route, runs, familyGroups, appendAll, appendAll.go, assignShards, insertionSort, insertionSort.insertSortedL,
     lessShard, lessTs, sameShard, inFamilyOf, contains, dayCalc, oneDay, oneHour]
+
+/-- the flat theorems are about a non-trivial machine: a decoder left dirty by an earlier histogram row
+(scratch slices, builder slots, mmsc) decodes a row with a repeated key and a reserved field name exactly as
+a brand-new one does, and accepts it -/
+def dirtyDec : FlatRow.Dec :=
+  ⟨⟨"old", "oldns", 7, [⟨"z", "1"⟩], [⟨"y", "2"⟩], [⟨"f", 1, .num 1⟩], [], [.num 1, .num 2], [.num 1, .pinf],
+    .num 1, .num 2, .num 3, .num 4⟩, [.num 9], [.pinf]⟩
+def row0 : FlatRow.FRow :=
+  ⟨"cpu|load", "", 0, [⟨"host", "h1"⟩, ⟨"dc", "eu"⟩, ⟨"dc", "eu"⟩], [⟨"HistogramX", 2, .num 3⟩],
+   some ⟨.num 0, .num 5, .num 6, .num 3, [.num 1, .num 1, .num 1], [.num 1, .num 2, .pinf]⟩⟩
+example :
+    (FlatRow.decodeTo ⟨cfg0, 256⟩ (insertionSort (less false)) (fun s => s.length) dirtyDec row0).2 =
+      (FlatRow.decodeTo ⟨cfg0, 256⟩ (insertionSort (less false)) (fun s => s.length) FlatRow.Dec.fresh row0).2 ∧
+    (FlatRow.decodeTo ⟨cfg0, 256⟩ (insertionSort (less false)) (fun s => s.length) dirtyDec row0).2.toOption.isSome = true := by
+  decide
 
 /-! ## proved negations -/
 namespace Neg
@@ -933,6 +1135,18 @@ theorem channel_not_found_error_overwritten :
     deliver (fun s => s == 2) [⟨1, 0, []⟩, ⟨2, 0, []⟩] = ([⟨2, 0, []⟩], false) ∧
     deliver (fun s => s == 1) [⟨1, 0, []⟩, ⟨2, 0, []⟩] = ([⟨1, 0, []⟩], true) := by
   constructor <;> rfl
+
+/-- the two histogram rule sets differ: a histogram with exactly two buckets is rejected by validateMetric
+(`len(Values) <= 2`) and accepted by RowBuilder.AddCompoundFieldData (`len(values) < 2`) — outside
+`Agree.compound_agree` (recorded observation, not judged by the harness) -/
+def cf2 : Compound := ⟨.num 0, .num 1, .num 1, .num 1, [.num 1, .num 0], [.num 1, .pinf]⟩
+theorem two_bucket_histogram_formats_disagree :
+    checkCompound cf2 = false ∧ FlatRow.compoundErr (some cf2) = none := by decide
+
+/-- … and a NaN bucket value passes validateMetric (`v < 0` is false for NaN) while RowBuilder rejects it -/
+def cfNaN : Compound := ⟨.num 0, .num 1, .num 1, .num 1, [.num 1, .nan, .num 0], [.num 1, .num 2, .pinf]⟩
+theorem nan_bucket_value_formats_disagree :
+    checkCompound cfNaN = true ∧ FlatRow.compoundErr (some cfNaN) = some .bucketNaN := by decide
 
 end Neg
 
